@@ -22,6 +22,12 @@ pub(super) enum Action {
 
     /// Write lock
     Write,
+
+    /// `try_read`: never blocks
+    TryRead,
+
+    /// `try_write`: never blocks
+    TryWrite,
 }
 
 #[derive(Debug)]
@@ -79,12 +85,12 @@ impl RwLock {
     }
 
     pub(crate) fn try_acquire_read_lock(&self, location: Location) -> bool {
-        self.state.branch_action(Action::Read, location);
+        self.state.branch_action(Action::TryRead, location);
         self.post_acquire_read_lock()
     }
 
     pub(crate) fn try_acquire_write_lock(&self, location: Location) -> bool {
-        self.state.branch_action(Action::Write, location);
+        self.state.branch_action(Action::TryWrite, location);
         self.post_acquire_write_lock()
     }
 
@@ -257,7 +263,13 @@ impl RwLock {
                 }
 
                 match th.operation.as_ref() {
-                    Some(op) if op.object() == self.state.erase() => {
+                    // Pending `try_read` / `try_write` operations do not wait
+                    // for the lock: they stay runnable and will fail.
+                    Some(op)
+                        if op.object() == self.state.erase()
+                            && op.action() != Action::TryRead
+                            && op.action() != Action::TryWrite =>
+                    {
                         let location = op.location();
                         th.set_blocked(location);
                     }
